@@ -21,6 +21,7 @@ import (
 	"go.nanomsg.org/mangos/v3/vh/c16"
 	"go.nanomsg.org/mangos/v3/vh/kinds"
 	"go.nanomsg.org/mangos/v3/vh/kit"
+	"go.nanomsg.org/mangos/v3/vh/ledger"
 	vnet "go.nanomsg.org/mangos/v3/vh/vnet"
 	_ "go.nanomsg.org/mangos/v3/transport/tcp"
 	"go.nanomsg.org/mangos/v3/vh/vt"
@@ -64,6 +65,8 @@ func init() {
 					Cfg: vsched.Config{Race: true}, Body: func() { recvVsReconf(k) }})
 			}
 		}
+		out = append(out, &vexplore.Scenario{Name: "fan-out-concurrent-release", Mode: "sched", Bound: b, Reset: kit.ResetGlobals,
+			Cfg: vsched.Config{Race: true, AtomicPoints: true}, Body: fanoutRelease})
 		out = append(out, &vexplore.Scenario{Name: "two-threads-on-listener-and-dialer", Mode: "sched", Bound: b, Reset: kit.ResetGlobals,
 			Cfg: vsched.Config{Race: true}, Body: twoThreadsEndpoints})
 		for _, k := range kinds.All {
@@ -188,6 +191,46 @@ func recvVsReconf(k *kinds.Kind) {
 	}
 	kit.Observe("%s %s %s", k.Name, r.name, kit.ErrName(bc.Err))
 	kit.Must("Close", func() { _ = x.S.Close() })
+}
+
+// fanoutRelease: a PUB socket sends one message to three peers; every connection's sender goroutine
+// releases its reference when the write is done, concurrently with the others (atomic operations
+// are scheduling points here).  The message returns to the buffer pool exactly once, and messages
+// allocated afterwards are distinct objects.
+func fanoutRelease() {
+	ledger.Install()
+	s, err := kinds.ByName("pub").New()
+	if err != nil {
+		kit.Failf("setup", "NewSocket: %v", err)
+	}
+	ep := vt.Get("c11f")
+	if err := s.Listen("vt://c11f"); err != nil {
+		kit.Failf("setup", "Listen: %s", kit.ErrName(err))
+	}
+	var ps []*vt.Pipe
+	for i := 0; i < 3; i++ {
+		ps = append(ps, ep.Connect())
+	}
+	kit.Quiesce()
+	body := "published-to-three-peers-----------------------------"
+	sc := kit.Start("Send", func() (interface{}, error) { return nil, kit.SendBytes(s, []byte(body)) })
+	kit.Quiesce()
+	if !sc.Done() || sc.Err != nil {
+		kit.Failf("send-stuck", "Send done=%v %s", sc.Done(), kit.ErrName(sc.Err))
+	}
+	for i, p := range ps {
+		l := p.SentLog()
+		if len(l) != 1 || string(l[0].Data) != body {
+			kit.Failf("fanout-missing", "peer %d has %d message(s)", i, len(l))
+		}
+	}
+	a, b2 := mangos.NewMessage(len(body)), mangos.NewMessage(len(body))
+	if a == b2 {
+		kit.Failf("buffer-handed-out-twice", "two NewMessage calls returned the same message object")
+	}
+	a.Free()
+	b2.Free()
+	kit.Must("Close", func() { _ = s.Close() })
 }
 
 // twoThreadsEndpoints: one Listener and one Dialer object (over the virtual transport or the real
